@@ -40,13 +40,30 @@ def _regen_profiletables(ctx):
 
 
 def _regen_gendigest(ctx):
+    """step 1 of the byte-for-byte clause: run the repository's generator into work/C17/regen and hash what it wrote
+    (python hashlib). Reads nothing of the checked-in generated code except the version named in version_gen.go."""
     import framework as F
     rc, o = F.sh([sys.executable, os.path.join(F.ROOT, 'translators', 'gendigest.py'), F.REPO, os.path.join(_gen(ctx), 'GenDigest.lean'),
-                  os.path.join(ctx.work, 'gendigest.json')], timeout=900)
+                  os.path.join(ctx.work, 'gendigest.json'), os.path.join(ctx.work, 'regen')], timeout=900)
     ctx.cov.setdefault('extra', {})['gendigest'] = o.strip()[-300:]
+    ctx.log('regen gendigest (generator re-run, sha256 of its output):', o.strip()[-200:])
     # a generator that does not run is recorded in GenDigest.lean (generatorRan = false) and fails C17_bytes;
     # the step itself only fails when nothing could be written
     return os.path.exists(os.path.join(_gen(ctx), 'GenDigest.lean'))
+
+
+def _regen_treedigest(ctx):
+    """step 2 of the byte-for-byte clause, independent of step 1 (another tool, run and logged separately):
+    find + sha256sum over the WHOLE tree (all *_gen.go files outside .git), with the generator each file's header names"""
+    import framework as F
+    rc, o = F.sh(['sh', os.path.join(F.ROOT, 'translators', 'treedigest.sh'), F.REPO, os.path.join(_gen(ctx), 'TreeDigest.lean'),
+                  os.path.join(ctx.work, 'treedigest.json')], timeout=300)
+    ctx.cov.setdefault('extra', {})['treedigest'] = o.strip()[-300:]
+    ctx.log('regen treedigest (checked-in *_gen.go of the whole tree, sha256sum):', o.strip()[-200:])
+    if rc != 0:
+        ctx.fail('tool', 'translator treedigest failed: ' + o.strip()[-300:], detail=o[-2000:])
+        return False
+    return True
 
 
 def _regen_untyped(ctx):
@@ -65,44 +82,82 @@ def _regen_mesgdef17(ctx):
     return F.harness_regen(ctx, 'mesgdef', 'Mesgdef.lean')
 
 
-REGEN = {'mesgdef17': _regen_mesgdef17, 'untyped': _regen_untyped, 'registry': _regen_registry, 'xlsx': _regen_xlsx, 'profiletables': _regen_profiletables, 'gendigest': _regen_gendigest}
+REGEN = {'mesgdef17': _regen_mesgdef17, 'untyped': _regen_untyped, 'registry': _regen_registry, 'xlsx': _regen_xlsx, 'profiletables': _regen_profiletables, 'gendigest': _regen_gendigest, 'treedigest': _regen_treedigest}
+
+
+# the `*_gen.go` files of the tree that OTHER declared generators write (path -> program named in the file's header);
+# the same list is stated in Lean (`Fit.C17.otherGenerators`, FitProps/C17Defs.lean) — this copy only words the replay
+OTHER_GENERATORS = {'cmd/fitprint/printer/typedef_gen.go': 'cmd/fitconv/fitprint/typedef.go',
+                    'cmd/fitconv/fitcsv/lookup_gen.go': 'cmd/fitconv/fitcsv/lookup.go'}
+
+
+def _first_row(tree_path, regen_path):
+    """(first differing line: number, checked-in text, regenerated text), unified diff"""
+    import difflib
+    try:
+        x = open(tree_path, errors='replace').read().split('\n')
+    except OSError:
+        x = []
+    try:
+        y = open(regen_path, errors='replace').read().split('\n')
+    except OSError:
+        y = []
+    k = next((i for i in range(min(len(x), len(y))) if x[i] != y[i]), min(len(x), len(y)))
+    row = dict(line=k + 1, tree=(x[k] if k < len(x) else '<end of file>').strip()[:160],
+               regen=(y[k] if k < len(y) else '<end of file>').strip()[:160])
+    return row, x, y, difflib
 
 
 def _extra(ctx, spec):
-    """name the first differing generated file (with its diff) as the replay when the digests differ"""
-    p = os.path.join(ctx.work, 'gendigest.json')
+    """Replay for the byte-for-byte clause: the two digest tables (written by the two regeneration steps) are joined here
+    only to NAME the differing / missing / left-over file and to print its diff; the verdict on the clause is C17_bytes."""
+    import framework as F
     try:
-        info = json.load(open(p))
+        info = json.load(open(os.path.join(ctx.work, 'gendigest.json')))
+        tree = json.load(open(os.path.join(ctx.work, 'treedigest.json')))
     except Exception:  # noqa
         return
-    nfiles = len(info.get('files', []))
-    diff = [f for f in info.get('files', []) if f['regen'] != f['tree']]
-    ctx.cov.setdefault('extra', {})['generated_files'] = dict(emitted=nfiles, differing=len(diff), leftover=len(info.get('extra', [])),
-                                                            profile_version=info.get('version'))
+    emitted = {f['path']: f['regen'] for f in info.get('files', [])}
+    intree = {f['path']: f for f in tree.get('files', [])}
+    nfiles = len(emitted)
+    diff = [p for p in sorted(emitted) if p in intree and intree[p]['sha'] != emitted[p]]
+    missing = [p for p in sorted(emitted) if p not in intree]
+    leftover = [p for p in sorted(intree) if p not in emitted and OTHER_GENERATORS.get(p) != intree[p]['generator']]
+    ctx.cov.setdefault('extra', {})['generated_files'] = dict(
+        emitted=nfiles, tree_gen_files=len(intree), differing=len(diff), not_in_tree=len(missing), leftover=len(leftover),
+        other_generators=sorted(p for p in intree if p not in emitted and p not in leftover), profile_version=info.get('version'))
     ctx.cov['extra_evaluations'] = ctx.cov.get('extra_evaluations', 0) + nfiles
     ctx.cov['extra_distinct'] = ctx.cov.get('extra_distinct', 0) + nfiles
+    regen_dir = info.get('outdir') or ''
     if not info.get('ran'):
         ctx.fail('prop', 'the generator does not run on this tree (so the checked-in code is not what it produces)',
                  op='gendiff <generator>', impl=info.get('log', '')[-1500:], demanded='generator output = checked-in files')
-    elif diff:
-        fd = info.get('first_diff') or {}
-        def row(f):
-            r = f.get('row')
-            return f"{f['path']}" + (f" line {r['line']}: checked-in `{r['tree']}` / regenerated `{r['regen']}`" if r else '')
-        ctx.fail('prop', f"{len(diff)} generated file(s) differ from what the generator produces from Profile.xlsx: " +
-                 '; '.join(row(f) for f in diff[:5]),
-                 op='gendiff ' + diff[0]['path'], impl='checked-in sha256 ' + str(diff[0]['tree']), demanded='regenerated sha256 ' + str(diff[0]['regen']),
-                 diff=fd.get('diff', ''))
-    elif info.get('extra'):
-        ctx.fail('prop', 'checked-in *_gen.go files the generator no longer emits: ' + ', '.join(info['extra'][:5]),
-                 op='gendiff ' + info['extra'][0], impl='present', demanded='absent')
+    elif diff or missing:
+        words, first = [], None
+        for p in (diff + missing)[:12]:
+            row, x, y, difflib = _first_row(os.path.join(F.REPO, p), os.path.join(regen_dir, p))
+            if first is None:
+                first = '\n'.join(list(difflib.unified_diff(x, y, 'checked-in/' + p, 'regenerated/' + p, lineterm='', n=1))[:60])
+            words.append(f"{p} line {row['line']}: checked-in `{row['tree']}` / regenerated `{row['regen']}`" if p in intree
+                         else f"{p}: emitted by the generator, not in the tree")
+        p0 = (diff + missing)[0]
+        ctx.fail('prop', f"{len(diff) + len(missing)} generated file(s) differ from what the generator produces from Profile.xlsx: " + '; '.join(words[:5]),
+                 op='gendiff ' + p0, impl='checked-in sha256 ' + str(intree.get(p0, {}).get('sha')), demanded='regenerated sha256 ' + str(emitted[p0]),
+                 diff=first or '')
+    elif leftover:
+        ctx.fail('prop', 'checked-in *_gen.go files that neither the generator emits nor a declared other generator writes: ' +
+                 ', '.join(f"{p} (header names `{intree[p]['generator'] or '?'}`)" for p in leftover[:5]),
+                 op='gendiff ' + leftover[0], impl='present', demanded='absent')
 
 
 PROP = dict(
     level='proof',
-    regen=['xlsx', 'profiletables', 'mesgdef17', 'untyped', 'gendigest'],
-    theorems=['Fit.C17.C17_bytes', 'Fit.C17.C17_factory_eq_xlsx_partial', 'Fit.C17.C17_factory_eq_xlsx_outside_class',
+    regen=['xlsx', 'profiletables', 'mesgdef17', 'untyped', 'gendigest', 'treedigest'],
+    theorems=['Fit.C17.C17_bytes', 'Fit.C17.C17_bytes_tables', 'Fit.C17.C17_filesMatch_sound',
+              'Fit.C17.C17_factory_eq_xlsx_partial', 'Fit.C17.C17_factory_eq_xlsx_outside_class',
               'Fit.C17.C17_KF1_witness', 'Fit.C17.C17_types_eq_xlsx_partial', 'Fit.C17.C17_KF1_witness_types',
+              'Fit.C17.C17_dedupe_exact', 'Fit.C17.C17_types_eq_xlsx_listed', 'Fit.C17.C17_dedupe_no_value_lost', 'Fit.C17.C17_dedupe_keeps',
+              'Fit.C17.C17_types_without_R7_false',
               'Fit.C17.C17_refs_resolve', 'Fit.C17.C17_bitwidth_fit', 'Fit.C17.C17_string_roundtrip',
               'Fit.C17.C17_string_tables_cover', 'Fit.C17.C17_invalid_is_base_invalid', 'Fit.C17.C17_mesgnum_fieldnum_partial',
               'Fit.C17.C17_profile_types', 'Fit.C17.C17_version', 'Fit.C17.C17_mesgdef_matches_xlsx',
@@ -111,17 +166,21 @@ PROP = dict(
     lean_extra_targets=['driver'],   # built in the same lake invocation as the theorems (the C compilation of a changed table runs beside the kernel checks)
     extra=_extra,
     trusted_base=STD_TRUST + [
-        "translators/gendigest.py: runs the repository's own generator (go run main.go -f Profile.xlsx -p <scratch> -b all --profile-version <from version_gen.go> -y) outside the repository and hashes its output and the checked-in files (sha256)",
-        "translators/xlsx.py: independent reader of Profile.xlsx (python3 zipfile + xml.etree; reading rules R0-R6 in its header) — shares no code with the generator's parser/lookup/xlsxreader/misspell",
+        "translators/gendigest.py (step gendigest): runs the repository's own generator (go run main.go -f Profile.xlsx -p <scratch> -b all --profile-version <from version_gen.go's doc comment> -y) outside the repository and hashes what it WROTE (python hashlib); opens no checked-in *_gen.go file",
+        "translators/treedigest.sh (step treedigest, run and logged separately): find + coreutils sha256sum over the WHOLE tree except .git: path, sha256 and the program named in the first line of every checked-in *_gen.go; runs nothing of the repository",
+        "translators/xlsx.py: independent reader of Profile.xlsx (python3 zipfile + xml.etree; reading rules R0-R7 in its header) — shares no code with the generator's parser/lookup/xlsxreader/misspell",
         "fitharness regen profiletables: dump of the compiled factory/profile/typedef packages; tied to the live packages by the family profilerows (every message, every (message, field number) through CreateField, every type and every constant's String/FromString)",
         "translators/registry.py: listing of typedef types / mesgdef constructors by their declaration signature",
+        "sha256: equal digests are read as equal bytes",
     ],
-    assumptions=["the generator program itself is not modelled: its output is validated (translation validation), per run, against the tree and against the spreadsheet",
-                 "python's float() and Go's strconv.ParseFloat both round a decimal to the nearest binary64"],
+    assumptions=["the generator program itself is not modelled: it is RUN on every check and its output is validated (translation validation by execution) against the tree (two independently produced digest tables compared by the kernel) and against the spreadsheet",
+                 "the String()/FromString clause is likewise an execution check: the compiled functions are called on every listed constant and the table of results is what the kernel checks",
+                 "python's float() and Go's strconv.ParseFloat both round a decimal to the nearest binary64",
+                 "reading rule R7 (a row of the Types sheet commented 'deprecated' whose value another row of the same type carries is an alias, not a constant) is part of the reading of the spreadsheet; pinned to exactly one row (weather_report.forecast = 1) by C17_dedupe_exact"],
 )
 
 TEXT = dict(
-    technique='Lean 4 kernel-checked statements (decide +kernel, sharded over lemma modules) about finite tables regenerated on every run: sha256 of the generator\'s fresh output vs the tree; dump of the compiled factory / typedef / profile packages and the reflection+probing tables of the typed structs vs an independent python reading of Profile.xlsx; reference resolution, bit-width fit, String/FromString round trip; differential tie of the dump to the live packages row by row',
-    text='On every run the repository\'s generator is re-run into a scratch directory and the digests of its 304 files are compared with the checked-in files inside Lean (C17_bytes; no left-over *_gen.go). The compiled factory (119 messages, 1382 fields, 98 sub-fields with components and reference maps), the 179 profile types (3658 constants), profile_gen.go (type list, String/FromString, BaseType), the untyped mesgnum/fieldnum constants, the typed structs of profile/mesgdef (slot kinds, base types, fixed lengths, eligible expanded numbers, emission order) and the version are proved equal, entry by entry, to an independent reading of Profile.xlsx up to exactly three spell-corrected identifiers (open finding KF-C17-1, C17_KF1_witness*). Internal consistency: component / sub-field references resolve within the message, component bits fit the containing field, every listed constant round-trips through String/FromString with no duplicate value or string (C17_distinct_sound: the Boolean test implies List.Nodup).',
-    note='Trusted: Lean kernel; the translators (generator re-run + sha256, python xlsx reader with reading rules R0-R6, dump of the compiled packages, source scan for the untyped constants, reflection/probing of the typed structs) and the harness/driver protocol. The generator program is validated per run (translation validation), not verified. The profile version is not in the spreadsheet: it is taken from version_gen.go\'s doc comment.',
+    technique='Lean 4 kernel-checked statements (decide +kernel, sharded over lemma modules; general soundness lemmas for the Boolean tests) about finite tables regenerated on every run. Two of the clauses are execution checks (translation validation by execution), not statements about a model of a program: byte-for-byte (the generator is re-run; sha256 table of its fresh output vs an independently produced sha256 table of every *_gen.go of the tree) and String/FromString round trip (the compiled functions are called on every constant). The others compare a dump of the compiled factory / typedef / profile packages and the reflection+probing tables of the typed structs with an independent python reading of Profile.xlsx; reference resolution, bit-width fit; differential tie of the dump to the live packages row by row',
+    text='On every run the repository\'s generator is re-run into a scratch directory and the sha256 of each of its 304 files is recorded (step gendigest); separately, with another tool, every *_gen.go of the whole tree is hashed and the generator its header names recorded (step treedigest, 306 files). C17_bytes: the kernel checks that the two tables agree — every emitted file is in the tree with the same digest, and every *_gen.go anywhere in the tree is emitted or is one of the two named outputs of other declared generators (cmd/fitprint/printer/typedef_gen.go, cmd/fitconv/fitcsv/lookup_gen.go), so a left-over generated file breaks it. This clause is translation validation by execution: the generator program is not modelled. The compiled factory (119 messages, 1382 fields, 98 sub-fields with components and reference maps), the 179 profile types (3658 rows of the Types sheet = 3657 constants + the one deprecated alias row weather_report.forecast = 1, whose value hourly_forecast = 1 keeps: reading rule R7, pinned by C17_dedupe_exact / C17_types_eq_xlsx_listed / C17_dedupe_no_value_lost; without the rule the statement is false, C17_types_without_R7_false), profile_gen.go (type list, String/FromString, BaseType), the untyped mesgnum/fieldnum constants, the typed structs of profile/mesgdef (slot kinds, base types, fixed lengths, eligible expanded numbers, emission order) and the version are proved equal, entry by entry, to an independent reading of Profile.xlsx up to exactly three spell-corrected identifiers (open finding KF-C17-1, C17_KF1_witness*). Internal consistency: component / sub-field references resolve within the message, component bits fit the containing field (a real bound for scalar and fixed-length fields; for variable-length arrays only the protocol maximum of 255 bytes bounds the sum), every listed constant round-trips through String/FromString with no duplicate value or string (an execution check of the compiled functions; C17_distinct_sound: the Boolean test implies List.Nodup).',
+    note='Trusted: Lean kernel; the translators (generator re-run + python sha256 of its output; find + sha256sum of the tree as a separate step; python xlsx reader with reading rules R0-R7; dump of the compiled packages; source scan for the untyped constants; reflection/probing of the typed structs) and the harness/driver protocol. Execution checks, not proofs about a program: the byte-for-byte clause (C17_bytes: the generator is run per check, validated, not verified) and the String/FromString tables (C17_string_roundtrip: the compiled functions are called). R7 consequence: WeatherReportForecast is not generated and WeatherReportFromString("forecast") is invalid. The profile version is not in the spreadsheet: it is taken from version_gen.go\'s doc comment.',
 )
